@@ -248,6 +248,7 @@ type fsWorld struct {
 	req      map[string]bool // put back by an earlier switch: stays until it is on the branch again or expires
 	own      map[string]bool // accepted through the entry path, not on the branch since
 	switches int
+	evIndex  int // index of the event being checked (-1: a submission before the first event)
 	out      *fsOut
 }
 
@@ -258,7 +259,7 @@ func (w *fsWorld) violate(fp, what string) {
 			return
 		}
 	}
-	w.out.viol = append(w.out.viol, core.Violation{Fingerprint: full, What: what + " — case " + w.c.String(), Replay: map[string]interface{}{"part": "C", "case": w.c}})
+	w.out.viol = append(w.out.viol, core.Violation{Fingerprint: full, What: what + " — case " + w.c.String(), Replay: map[string]interface{}{"part": "C", "case": w.c, "at": w.evIndex}})
 }
 
 // placed returns the names of the transactions placed at token tok (e.g. "x2"), in menu order.
@@ -519,6 +520,7 @@ func segTxs(seg []*fsBlk) []string {
 
 // check evaluates the clause after event ei.
 func (w *fsWorld) check(ei int, ev, res string) {
+	w.evIndex = ei
 	w.o.Use()
 	newHead := w.o.BC.CurrentBlock().Hash()
 	if w.blk[newHead] == nil {
@@ -1300,13 +1302,18 @@ func fsWorker(i, n int) {
 			return
 		}
 		core.Journal(c.String())
-		before := len(out.viol)
 		tr := runFsCase(c, out)
 		if idx%997 == 1 {
 			r.Sample(map[string]interface{}{"case": c.String(), "trace": tr})
 		}
-		for _, v := range out.viol[before:] {
-			r.Violate(v.Fingerprint, v.What, v.Replay)
+		// the first (= simplest, the enumeration goes from simple to complex) case of every fingerprint is
+		// handed to the parent together with its position in the enumeration; the parent keeps the overall first
+		for _, v := range out.viol {
+			r.Add("violations_raw", 1)
+			key := fmt.Sprintf("C/viol/%s/worker%d", v.Fingerprint, i)
+			if _, ok := r.Extra[key]; !ok {
+				r.Extra[key] = map[string]interface{}{"index": idx, "fingerprint": v.Fingerprint, "what": v.What, "replay": v.Replay}
+			}
 		}
 		out.viol = out.viol[:0]
 	})
@@ -1343,6 +1350,39 @@ func runForkSwitch() *core.Result {
 	if got := r.Counters["fs_cases"]; r.Exhaustive && got != int64(total) {
 		r.NotExhaustive(fmt.Sprintf("part C ran %d of %d cases", got, total))
 	}
+	// per fingerprint: the violation with the smallest position in the enumeration
+	type cand struct {
+		index  float64
+		fp     string
+		what   string
+		replay interface{}
+	}
+	best := map[string]cand{}
+	for k, v := range r.Extra {
+		if !strings.HasPrefix(k, "C/viol/") {
+			continue
+		}
+		delete(r.Extra, k)
+		m, ok := v.(map[string]interface{})
+		if !ok {
+			continue
+		}
+		c := cand{fp: fmt.Sprint(m["fingerprint"]), what: fmt.Sprint(m["what"]), replay: m["replay"]}
+		c.index, _ = m["index"].(float64)
+		if b, ok := best[c.fp]; !ok || c.index < b.index {
+			best[c.fp] = c
+		}
+	}
+	fps := make([]string, 0, len(best))
+	for fp := range best {
+		fps = append(fps, fp)
+	}
+	sort.Strings(fps)
+	raw := r.Counters["violations_raw"]
+	for _, fp := range fps {
+		r.Violate(fp, best[fp].what, best[fp].replay)
+	}
+	r.Counters["violations_raw"] = raw
 	return r
 }
 
